@@ -24,8 +24,8 @@ type c16Case struct {
 	LMTP       bool             `json:"lmtp"`
 	Rcpts      []bool           `json:"rcpts"` // per recipient: accepted at RCPT time?
 	CloseTwice bool             `json:"close_twice"`
-	// SlowMs > 0: the client's CommandTimeout is set to SlowMs/2 and the
-	// producer pauses SlowMs before writing the body (a slow producer must not
+	// SlowMs > 0: for the DATA command (only) the client's CommandTimeout is
+	// SlowMs/2, and the producer pauses SlowMs before writing the body (a slow producer must not
 	// be cut off by the timeout of the DATA command, which is over). Wall-clock
 	// is only the trigger; on a correct client nothing is armed while it waits.
 	SlowMs int `json:"slow_ms,omitempty"`
@@ -111,13 +111,10 @@ func c16Run(c c16Case) Verdict {
 	var priorWriter io.WriteCloser
 	var staleWrote int64
 	staleDone := false
-	var closeErr, close2Err, noopErr, setupErr, envErr error
+	var closeErr, close2Err, noopErr, setupErr, envErr, dataCmdErr error
 	var consumed1, consumed2 int64
 	var wantRcpts []string
 	ok := withClient(r, c.LMTP, func(cl *smtp.Client, w *harness.Wire) {
-		if c.SlowMs > 0 {
-			cl.CommandTimeout = time.Duration(c.SlowMs) * time.Millisecond / 2
-		}
 		if c.Prior {
 			if err := cl.Mail("prior@x", nil); err != nil {
 				setupErr = err
@@ -161,13 +158,21 @@ func c16Run(c c16Case) Verdict {
 		}
 		var wc io.WriteCloser
 		var err error
+		if c.SlowMs > 0 {
+			cl.CommandTimeout = time.Duration(c.SlowMs) * time.Millisecond / 2
+		}
 		if c.LMTP {
 			wc, err = cl.LMTPData(func(rcpt string, status *smtp.SMTPError) {})
 		} else {
 			wc, err = cl.Data()
 		}
+		if c.SlowMs > 0 {
+			cl.CommandTimeout = 5 * time.Minute
+		}
 		if err != nil {
-			setupErr = err
+			// (with the short timeout this may be the machine being busy:
+			// the command itself is not what a slow-producer case judges)
+			dataCmdErr = err
 			return
 		}
 		if c.SlowMs > 0 {
@@ -217,6 +222,9 @@ func c16Run(c c16Case) Verdict {
 	}
 	if envErr != nil {
 		return failf("envelope-refused", "a well-formed sender / recipient the backend accepts could not be given: %v", envErr)
+	}
+	if dataCmdErr != nil {
+		return Verdict{Inconclusive: "DATA command: " + dataCmdErr.Error()}
 	}
 	if setupErr != nil && c.SlowMs > 0 {
 		return failf("slow-producer", "after pausing %d ms before the body (CommandTimeout %d ms) a client call failed: %v", c.SlowMs, c.SlowMs/2, setupErr)
@@ -434,8 +442,8 @@ func c16Gen(t *rapid.T) c16Case {
 	}
 	c := c16Case{Body: body, Splits: c16Partition(t, len(body)), Verdict: c16GenVerdict(t), LMTP: rapid.Bool().Draw(t, "lmtp"), CloseTwice: rapid.Bool().Draw(t, "twice")}
 	// a few slow-producer cases (each costs its pause in wall-clock time)
-	if rapid.IntRange(0, 999).Draw(t, "slow")%40 == 25 {
-		c.SlowMs = 40
+	if rapid.IntRange(0, 2999).Draw(t, "slow")%300 == 25 {
+		c.SlowMs = 200
 	}
 	nr := rapid.IntRange(1, 3).Draw(t, "nrcpt")
 	for i := 0; i < nr; i++ {
